@@ -1176,6 +1176,9 @@ pub fn generate(run_seed: u64, index: u64) -> Script {
         // 1026 bytes span three pages only from the last bytes of a page; 2056 bytes always do
         widths.push(*rng.pick(&[8208usize, 16448]));
     }
+    // in those runs the backing may be large as well (several pages around the first zone),
+    // so that page-spanning loads are fully backed and only sparsely overlaid by stores
+    let big_backing = huge && rng.chance(1, 6);
 
     // zones
     let candidates: [u64; 8] = [0x3e8, 0x7e8, 0x10, 0x1_0000_03e8, 0xbd0, 0x7fff_ffff_ffff_f3e8, 0xffff_ffff_0000_07e0, 0x8000_0000_0000_03e8];
@@ -1212,6 +1215,15 @@ pub fn generate(run_seed: u64, index: u64) -> Script {
             regions.push(Region {
                 address: zones[0].0 + 8,
                 data: to_hex(&rng.bytes(24)),
+                perms: 5,
+            });
+        }
+        if big_backing {
+            let start = (zones[0].0 & !1023).saturating_sub(2048);
+            regions.clear();
+            regions.push(Region {
+                address: start,
+                data: to_hex(&rng.bytes(6144)),
                 perms: 5,
             });
         }
@@ -1304,6 +1316,13 @@ pub fn generate(run_seed: u64, index: u64) -> Script {
                     addr,
                     val: gen_value(&mut rng, bits, expression, &names),
                 });
+            }
+            "load" if big_backing && rng.chance(1, 3) => {
+                // a load of two to three pages starting up to two pages before the zone
+                let bits = *rng.pick(&[8208usize, 16448, 24640]);
+                let z0 = zones[0].0;
+                let addr = z0.saturating_sub(rng.below(2048));
+                actions.push(Action::Load { p, addr, bits });
             }
             "load" => {
                 let bits = if rng.chance(1, 5) {
